@@ -154,11 +154,12 @@ type c13Result struct {
 	infra     string
 }
 
-func c13Exec(t *testing.T, p *Plan) *c13Result {
-	r := &c13Result{}
+func c13Exec(t *testing.T, p *Plan) (r *c13Result) {
+	r = &c13Result{}
 	defer func() {
 		if x := recover(); x != nil {
 			r.infra = fmt.Sprintf("bubble ended abnormally: %v", x)
+			dumpGoroutines()
 		}
 	}()
 	synctest.Test(t, func(t *testing.T) {
